@@ -8,7 +8,7 @@ _COMMON_NOTE = ("Trusted: Lean kernel (axioms propext, Classical.choice, Quot.so
 PROPS = {
     "C01": {
         "suites": ["cluster", "pair"],
-        "level_text": "C01_handshake_progress (member-level strict progress of a handshake step for every sender/receiver copy, digest and truncation point); C01_handshake_step_progress (the same through the executable sender: for every well-formed cluster state, digest, compressor, shuffle order and budget admitting the first member's header plus one op, compute_partial_delta_respecting_mtu emits a node delta for the first member in staleness order which the peer, whose copy is what its digest said, applies with a strictly larger frontier); C01_handshake_monotone; potential argument C01_rank_bounded / C01_rank_of_reachable / C01_rank_strict / C01_rank_mono / C01_progress_steps_bounded and, summed over the n copies of a member, C01_converges_within_bounded_sweeps (under fair sweeps a converged sweep boundary appears within n x ((V+1)^2 - 1) + 1 sweeps), C01_system_progress_bounded / C01_progress_run_bounded (any run of handshake steps each keeping every copy's frontier and strictly raising one has at most n x ((V+1)^2 - 1) steps, whatever faults happened before); C01_fixed_point_is_converged; C01_mesh_sweep_progress / C01_full_mesh_converges (the fairness hypothesis discharged for full-mesh sweeps of the member-level system XSys: from any reachable state, once the owner stops writing, every sweep in which the owner shakes hands loss-free with every holder - interleaved with arbitrary other gossip, stale or duplicated deliveries and key GCs - strictly raises a lagging copy and lowers none, so a converged sweep boundary appears within n x ((V+1)^2 - 1) + 1 sweeps); C01_connected_sweep_progress / C01_connected_converges (the same for sweeps whose handshakes only connect every holder to the owner through other holders - relay by third parties: a holder already at the owner's max version refuses every later delta and stays a valid source); C01_reply_advances_receiver (one reply seen on the whole receiver: ClusterState::apply_delta of what the real sender computed never aborts, lowers no copy of any member and strictly advances the copy of the first member in staleness order, so the potential summed over all members strictly increases with every productive reply); C01_ack_advances_receiver / C01_synack_advances_initiator / C01_handshake_end_to_end (the same through process_message - own heartbeat, heartbeat reports for the peer's digest, process_delta - with the digest the initiator really sends: the only hypothesis on the initiator is that it holds the first stale member and has not quarantined it, whose failure is exactly KF-3). Tied by cluster schedules with adversarial prefixes (loss, duplication, reordering, partition, truncation by large values, GC, clock advances) followed by a fair loss-free suffix, with a per-handshake progress monitor and a final convergence check on the real nodes.",
+        "level_text": "C01_handshake_progress (member-level strict progress of a handshake step for every sender/receiver copy, digest and truncation point); C01_handshake_step_progress (the same through the executable sender: for every well-formed cluster state, digest, compressor, shuffle order and budget admitting the first member's header plus one op, compute_partial_delta_respecting_mtu emits a node delta for the first member in staleness order which the peer, whose copy is what its digest said, applies with a strictly larger frontier); C01_handshake_monotone; potential argument C01_rank_bounded / C01_rank_of_reachable / C01_rank_strict / C01_rank_mono / C01_progress_steps_bounded and, summed over the n copies of a member, C01_converges_within_bounded_sweeps (under fair sweeps a converged sweep boundary appears within n x ((V+1)^2 - 1) + 1 sweeps), C01_system_progress_bounded / C01_progress_run_bounded (any run of handshake steps each keeping every copy's frontier and strictly raising one has at most n x ((V+1)^2 - 1) steps, whatever faults happened before); C01_fixed_point_is_converged; C01_mesh_sweep_progress / C01_full_mesh_converges (the fairness hypothesis discharged for full-mesh sweeps of the member-level system XSys: from any reachable state, once the owner stops writing, every sweep in which the owner shakes hands loss-free with every holder - interleaved with arbitrary other gossip, stale or duplicated deliveries and key GCs - strictly raises a lagging copy and lowers none, so a converged sweep boundary appears within n x ((V+1)^2 - 1) + 1 sweeps); C01_connected_sweep_progress / C01_connected_converges (the same for sweeps whose handshakes only connect every holder to the owner through other holders - relay by third parties: a holder already at the owner's max version refuses every later delta and stays a valid source); C01_reply_advances_receiver (one reply seen on the whole receiver: ClusterState::apply_delta of what the real sender computed never aborts, lowers no copy of any member and strictly advances the copy of the first member in staleness order, so the potential summed over all members strictly increases with every productive reply - C01_reply_raises_potential); C01_ack_advances_receiver / C01_synack_advances_initiator / C01_handshake_end_to_end (the same through process_message - own heartbeat, heartbeat reports for the peer's digest, process_delta - with the digest the initiator really sends: the only hypothesis on the initiator is that it holds the first stale member and has not quarantined it, whose failure is exactly KF-3). Tied by cluster schedules with adversarial prefixes (loss, duplication, reordering, partition, truncation by large values, GC, clock advances) followed by a fair loss-free suffix, with a per-handshake progress monitor and a final convergence check on the real nodes.",
         "level_note": _COMMON_NOTE + "PARTIAL: the sweep theorem is per member and takes 'one op beyond the member header is admitted' as hypothesis of each handshake; C01_handshake_step_progress derives that from the byte budget only for the first member in staleness order, so that members competing for one datagram all get their turn is argued and exercised by the fair suffix of the cluster suite and its monitors, not mechanised. KNOWN FINDING KF-3: when the receiver holds a member it no longer advertises (dead there for more than half the grace period) and that member's state exceeds a datagram, a handshake can advance nothing (the hypothesis 'the receiver's copy is what its digest said' of C01_handshake_step_progress fails); reported as KNOWN-FINDING, see DESIGN.md section 5.",
         "assumptions": ["the digest and any single key-value fit one datagram", "members not scheduled for deletion / not removed (advertised)"],
         "partial": "fairness/connectivity argument not mechanised; KF-3 known finding",
@@ -117,7 +117,7 @@ PROPS = {
     },
     "C18": {
         "suites": ["catchup"],
-        "level_text": "C18_no_panic_monotone (every existing copy x every supplied state: succeeds; copy untouched or frontier strictly raised), C18_not_live (live/dead untouched, at most an empty window created), C18_no_recreate, C18_keys_subset, C18_supplied_kept; tied to lib.rs by an exhaustive small-scope sweep of copy shapes (absent, remembered-as-collected, empty, mid-reset, ahead, behind) x supplied (max, gc) x random key sets.",
+        "level_text": "C18_no_panic_monotone (every existing copy x every supplied state: succeeds; copy untouched or frontier strictly raised), C18_not_live (live/dead untouched, at most an empty window created), C18_no_recreate, C18_keys_subset, C18_supplied_kept; tied to lib.rs by an exhaustive small-scope sweep of copy shapes (absent, remembered-as-collected, empty, mid-reset, ahead, behind) x supplied (max, gc) x random key sets. C18_copy_is_catchupCopy (the copy afterwards is exactly NodeState.catchupCopy of the copy before); on the ledger layer (Lemmas/Catchup.lean) catchupAbs_invW / catchupAbs_inv / absCopy_catchupCopy: an honest catch-up (another node's copy of the member) preserves integrity and exactness up to the frontier, and XStep - the step relation of C02/C03 - contains honest catch-ups, so C03_integrity and C02_exact_up_to_frontier_partial hold for every schedule interleaving catch-ups with gossip, GC, joins and removals.",
         "level_note": _COMMON_NOTE,
         "assumptions": [],
     },
